@@ -31,6 +31,8 @@ func extras() []core.Extra {
 		c17.Utf8TieExtra(), // the shared unicode/utf8 model, exhaustively against the standard library
 		{Name: "all-scalars-and-escapes", Run: extraScalars},
 		{Name: "malformed-exhaustive", Run: extraMalformed},
+		{Name: "concurrent-use", Run: extraParallel},
+		{Name: "huge-output", Run: extraHuge},
 	}
 }
 
@@ -401,4 +403,136 @@ func extraMalformed(ctx *core.Ctx) (int, string, []core.ExtraFailure) {
 			Payload: map[string]any{"lines": []string{c.Lines[0], c.Lines[m.li]}}, NoInput: true})
 	}
 	return total, fmt.Sprintf("every string of <= %d symbols over an 11-symbol alphabet per codec (%d inputs): no panic, length bound, well-formed decoding, and line-by-line agreement with the Lean model", maxSyms, total), fails
+}
+
+// ---------------------------------------------------------------- outputs of several MiB
+
+var growthCache sync.Map // initial capacity -> []int
+
+// growthMarks: the output lengths at which `b = append(b, six bytes...)` re-allocates, for a
+// buffer created with capacity cap0, measured on the Go runtime in use (not assumed).
+func growthMarks(cap0, limit int) []int {
+	if v, ok := growthCache.Load(cap0); ok {
+		return v.([]int)
+	}
+	var marks []int
+	b := make([]byte, 0, cap0)
+	for len(b) < limit {
+		old := cap(b)
+		b = append(b, '\\', 'u', '0', '0', '0', '0')
+		if cap(b) != old {
+			marks = append(marks, len(b)-6)
+		}
+	}
+	growthCache.Store(cap0, marks)
+	return marks
+}
+
+// extraHuge: inputs whose OUTPUT crosses 1, 2, 4 MiB and every re-allocation point of an
+// append-grown buffer (initial capacity 64 KiB, 1 MiB: the sizes a capacity hint is plausibly
+// capped at) up to 8 MiB, with a supplementary rune (surrogate pair = two appends) placed at
+// every escape position in a window of +-4 around the mark. Real code vs reference formatter
+// (inside Impl) and vs the Lean model (length + digest).
+func extraHuge(ctx *core.Ctx) (int, string, []core.ExtraFailure) {
+	full := ctx.Tier == "thorough" || ctx.Escalate > 1
+	limit := 1<<20 + 64
+	if full {
+		limit = 8 << 20
+	}
+	markSet := map[int]bool{1 << 20: true}
+	if full {
+		for _, m := range []int{2 << 20, 4 << 20} {
+			markSet[m] = true
+		}
+		for _, c0 := range []int{1 << 16, 1 << 20} {
+			for _, m := range growthMarks(c0, limit) {
+				if m >= 1<<20 {
+					markSet[m] = true
+				}
+			}
+		}
+	}
+	var cases []core.Case
+	total := 0
+	for m := range markSet {
+		for _, k := range []string{"utf16", "unicode"} {
+			w := escWidth[k]
+			ds := []int{-4, -3, -2, -1, 0, 1, 2, 3, 4}
+			if k == "unicode" && !full {
+				ds = []int{-1, 0}
+			}
+			for _, d := range ds {
+				n := m/w + d
+				if n < 0 {
+					continue
+				}
+				in := bytes.Repeat([]byte{'a'}, n)
+				for i := 0; i < len(in); i += 97 {
+					in[i] = byte('b' + i%23)
+				}
+				in = append(in, "\U0001F600z\U00010000\U0010FFFFé"...)
+				cases = append(cases, core.Case{Lines: []string{header(k), "formatdig " + hx(in)}, Tag: "huge"})
+				total++
+			}
+		}
+	}
+	sort.Slice(cases, func(a, b int) bool { return cases[a].Lines[1] < cases[b].Lines[1] })
+	outs := make([][]string, len(cases))
+	var fails []core.ExtraFailure
+	var mu sync.Mutex
+	var wg sync.WaitGroup
+	sem := make(chan struct{}, 4)
+	for i := range cases {
+		wg.Add(1)
+		sem <- struct{}{}
+		go func(i int) {
+			defer wg.Done()
+			defer func() { <-sem }()
+			o := impl(cases[i])
+			f := check(cases[i], o)
+			mu.Lock()
+			outs[i] = o
+			if f != nil && len(fails) < 3 {
+				fails = append(fails, core.ExtraFailure{Failure: *f, Payload: map[string]any{"lines": cases[i].Lines}})
+			}
+			mu.Unlock()
+		}(i)
+	}
+	wg.Wait()
+	// Lean model, 4 processes
+	workers := 4
+	var oerr error
+	for w := 0; w < workers; w++ {
+		wg.Add(1)
+		go func(w int) {
+			defer wg.Done()
+			var cs []core.Case
+			var idx []int
+			for i := w; i < len(cases); i += workers {
+				cs = append(cs, cases[i])
+				idx = append(idx, i)
+			}
+			if len(cs) == 0 {
+				return
+			}
+			mo, e := core.RunOracle(ctx.VerifDir, cs)
+			mu.Lock()
+			defer mu.Unlock()
+			if e != nil {
+				oerr = e
+				return
+			}
+			for j, i := range idx {
+				if mo[j][1] != outs[i][1] && !strings.HasPrefix(outs[i][1], "ref-mismatch") && len(fails) < 3 {
+					fails = append(fails, core.ExtraFailure{Failure: core.Failure{Key: "huge-model-mismatch", Desc: fmt.Sprintf("%s, %d-byte input: real code answers %q, Lean model %q", cases[i].Lines[0], (len(cases[i].Lines[1])-10)/2, outs[i][1], mo[j][1])},
+						Payload: map[string]any{"lines": cases[i].Lines}, NoInput: true})
+				}
+			}
+		}(w)
+	}
+	wg.Wait()
+	if oerr != nil {
+		fails = append(fails, core.ExtraFailure{Failure: core.Failure{Key: "huge-oracle", Desc: "oracle not runnable: " + oerr.Error()}, NoInput: true})
+	}
+	return total, fmt.Sprintf("%d inputs whose UnicodeFormat/Utf16Format output crosses %d mark(s) (1 MiB%s) with a supplementary rune at each of the +-4 escape positions around the mark: output vs reference formatter and vs the Lean model", total, len(markSet), map[bool]string{true: ", 2 MiB, 4 MiB and every append re-allocation point of 64 KiB / 1 MiB initial capacity up to 8 MiB", false: ""}[full]), fails
 }
